@@ -438,3 +438,106 @@ func aliasedField(f *fn, x ast.Expr, at token.Pos, fieldOf func(ast.Expr) *types
 	}
 	return fl
 }
+
+func init() {
+	register(&core.Rule{ID: "C11.11", Prop: "C11", MinSites: 1,
+		Desc: "a short write is reported: in linkedlist.Buffer.WriteTo every return on the edge where the writer took fewer bytes than the segment offered (m < b.len()) carries a non-nil error – the writer's own, or io.ErrShortWrite where that was nil – so that the caller does not take a partly written queue for a drained one",
+		Run:  runC11_11})
+}
+
+func runC11_11(c *core.Ctx) {
+	a := llAnchors(c)
+	if a == nil {
+		return
+	}
+	f := getFn(c, a.pk, "Buffer.WriteTo")
+	if f == nil {
+		return
+	}
+	// m, err = w.Write(…)
+	var cnt, errv types.Object
+	ast.Inspect(f.Decl.Body, func(n ast.Node) bool {
+		if as, ok := n.(*ast.AssignStmt); ok && len(as.Lhs) == 2 && len(as.Rhs) == 1 {
+			if call, ok := ast.Unparen(as.Rhs[0]).(*ast.CallExpr); ok {
+				if cf := flow.CalleeFunc(f.Info, call); cf != nil && cf.Name() == "Write" && cf.Pkg() != nil && cf.Pkg().Path() == "io" {
+					cnt, errv = flow.ObjOf(f.Info, as.Lhs[0]), flow.ObjOf(f.Info, as.Lhs[1])
+				}
+			}
+		}
+		return true
+	})
+	if cnt == nil || errv == nil {
+		c.Undecided(f.Name, "short write reported", f.Decl.Pos(), "no `m, err = w.Write(…)` found")
+		return
+	}
+	const (
+		sIdle     = iota
+		sShort    // m < len established, err unknown
+		sShortNil // … and err established nil
+		sShortOK  // … and err established (or made) non-nil
+	)
+	au := &flow.Auto{Start: sIdle}
+	au.Node = func(b *flow.Block, i int, n ast.Node, st int) int {
+		if as, ok := n.(*ast.AssignStmt); ok {
+			for j, l := range as.Lhs {
+				if flow.ObjOf(f.Info, l) == cnt {
+					return sIdle // a new transfer
+				}
+				if flow.ObjOf(f.Info, l) == errv && st != sIdle && j < len(as.Rhs) && len(as.Lhs) == len(as.Rhs) {
+					if flow.IsNil(f.Info, as.Rhs[j]) {
+						st = sShortNil
+					} else if o := flow.ObjOf(f.Info, as.Rhs[j]); o != nil && o.Pkg() != nil && isErrorType(o.Type()) && o.Parent() == o.Pkg().Scope() {
+						st = sShortOK // a package-level error value such as io.ErrShortWrite
+					} else {
+						st = sShort
+					}
+				}
+			}
+		}
+		return st
+	}
+	au.Edge = func(e *flow.Edge, st int) int {
+		if e.Cond == nil || e.Tag != nil {
+			return st
+		}
+		x, y, op, ok := flow.Cmp(e.Cond)
+		if !ok {
+			return st
+		}
+		if flow.ObjOf(f.Info, y) == cnt {
+			x, y, op = y, x, swapCmp(op)
+		}
+		if flow.ObjOf(f.Info, x) == cnt && st == sIdle {
+			if _, isCall := ast.Unparen(y).(*ast.CallExpr); isCall || flow.ObjOf(f.Info, y) != nil {
+				if (op == token.LSS && e.Sense) || (op == token.GEQ && !e.Sense) || (op == token.NEQ && e.Sense) || (op == token.EQL && !e.Sense) {
+					return sShort
+				}
+			}
+		}
+		if flow.ObjOf(f.Info, x) == errv && flow.IsNil(f.Info, y) && st != sIdle {
+			if (op == token.EQL) == e.Sense {
+				return sShortNil
+			}
+			return sShortOK
+		}
+		return st
+	}
+	sol := f.Graph().Run(au)
+	var bad token.Pos
+	shortReturns := 0
+	sol.AtExit(func(b *flow.Block, _ uint64) {
+		out := sol.Out(b)
+		if out&(1<<sShort|1<<sShortNil|1<<sShortOK) != 0 {
+			shortReturns++
+		}
+		if out&(1<<sShort|1<<sShortNil) != 0 && bad == token.NoPos {
+			bad = b.Return.Pos()
+		}
+	})
+	at := f.Decl.Pos()
+	if bad != token.NoPos {
+		at = bad
+	}
+	c.Check(bad == token.NoPos && shortReturns > 0, f.Name, "short write reported", at, itoa(shortReturns)+" returns on the short-write edge, each with a non-nil error",
+		"WriteTo can return on the short-write edge (m < b.len()) with an error that is not established non-nil: the unwritten rest stays queued, but the caller is told the transfer succeeded")
+}
